@@ -223,6 +223,69 @@ def run(prog, rep, tier):
     _c12.r121(prog, rep, R27)
     rep.floor("R2.7", 3)
 
+    # ------------------------------------------------------------ R2.9 a message whose end was not seen is stored only at end of file
+    # The block-bounded line search answers Done both at the end of the block and at the end of the
+    # file.  In find_sysline_in_block_year the message under construction may be stored after a Done
+    # only if the file ends there; otherwise it is stored without its remaining lines (truncated
+    # message, and the rest of it becomes a second, merged or dropped message).  Knowing that the
+    # file ends needs the file's end: every path from the Done arm to insert_sysline must pass a
+    # branch whose condition involves fileoffset_last()/filesz().
+    R29 = rep.rule("R2.9", "after a block-bounded Done the message is stored only behind a test against the end of the file")
+    fb_ = prog.body("s4lib::readers::syslinereader::SyslineReader::find_sysline_in_block_year")
+    EOFK = ("fileoffset_last", "filesz", "is_fileoffset_last", "blockoffset_last", "is_last", "filesz_actual")
+    ins_ = [c for c in fb_.live_calls() if c.d.endswith("::insert_sysline")]
+    fl_ = [c for c in fb_.live_calls() if c.d.endswith("::find_line_in_block")]
+    if not ins_ or not fl_:
+        raise CheckerError("find_sysline_in_block_year: insert_sysline (%d) / find_line_in_block (%d) not found" % (len(ins_), len(fl_)))
+    eof_sw = set()
+    for bb in sorted(fb_.live):
+        t = fb_.term(bb)
+        if t[0] == "switch":
+            os_ = fb_.origins(t[1], through_calls=("::not", "::lt", "::le", "::gt", "::ge", "::eq", "::ne"))
+            srcs = set()
+            for o in os_:
+                if o[0] == "call":
+                    srcs.add(o[2].split("::")[-1])
+                elif o[0] == "bin":
+                    st_ = fb_.stmts(o[1])[o[2]]
+                    for a in (st_[2][2], st_[2][3]):
+                        if a[0] != "k":
+                            for o2 in fb_.origins(a):
+                                if o2[0] == "call":
+                                    srcs.add(o2[2].split("::")[-1])
+            if srcs & set(EOFK):
+                eof_sw.add(bb)
+    n29 = 0
+    for c in fl_:
+        # Done arm of `match result_.0`
+        done_t = None
+        for bb in sorted(fb_.reachable(c.target)):
+            t = fb_.term(bb)
+            if t[0] == "switch" and fb_.dominates(c.bb, bb):
+                sd = None
+                try:
+                    sd = decide.switch_decisions(fb_, bb)
+                except CheckerError:
+                    sd = None
+                if sd and any(d[0] == "variant" and len(d[1]) >= 3 and d[1][0] == "call" and d[1][2] == c.bb for _, d in sd):
+                    arms_ = {d[2]: tgt for tgt, d in sd if d[0] == "variant"}
+                    if len(arms_) >= 3:
+                        done_t = arms_.get(1)
+                        break
+        if done_t is None:
+            raise CheckerError("find_sysline_in_block_year: result match of find_line_in_block at line %d not recognised" % c.line)
+        stores = [i_ for i_ in ins_ if i_.bb in fb_.reachable(done_t)]
+        unguarded = [i_ for i_ in stores if i_.bb in fb_.reachable(done_t, eof_sw)]
+        if stores:
+            n29 += 1
+        inst = "%s|done@%d" % (fb_.path, fl_.index(c))
+        rep.examined(R29, inst, nontrivial=bool(stores), sample={"find_line_in_block_line": c.line, "stores_reachable_after_Done": [i_.line for i_ in stores], "end_of_file_tests": sorted(fb_.blocks[x].get("l") for x in eof_sw), "store_without_eof_test": [i_.line for i_ in unguarded]})
+        if unguarded:
+            rep.violation(R29, inst, "find_sysline_in_block_year: after the block-bounded line search returns Done (line %d) the message can be stored (insert_sysline, line %d) without any comparison against the end of the file; "
+                          "a message that continues in the next block is then stored truncated" % (c.line, unguarded[0].line))
+    if n29 == 0:
+        raise CheckerError("R2.9: no Done arm from which a message is stored (idiom not recognised)")
+
     # ------------------------------------------------------------ R2.8 (shared with C12 R12.6)
     R28 = rep.rule("R2.8", "a first line longer than the block is still seen by stage 1 (shared with C12 R12.6)")
     _c12.partial_extent(prog, rep, R28)
